@@ -259,7 +259,7 @@ func (r *run) Do(op string) string {
 			r.cbMu.Unlock()
 			delete(r.done, f[1])
 			return "done " + r.snapshot()
-		case <-time.After(20 * time.Second):
+		case <-time.After(60 * time.Second):
 			return "hang"
 		}
 	case "tresume": // tresume A : the held call goes on (cleanup)
@@ -274,7 +274,7 @@ func (r *run) Do(op string) string {
 		close(ch)
 		select {
 		case <-d:
-		case <-time.After(20 * time.Second):
+		case <-time.After(60 * time.Second):
 			return "hang"
 		}
 		delete(r.done, f[1])
